@@ -59,7 +59,7 @@ def _run_patchfile(prop, m):
         shutil.copytree(os.path.join(REPO, "src"), os.path.join(tmp, "src"),
                         ignore=shutil.ignore_patterns(
                             "tests", "__pycache__", "*.pyc"))
-        r = subprocess.run(["git", "apply", "--unsafe-paths", "--directory",
+        r = subprocess.run(["git", "apply", "--include=*src/chameleon/*", "--unsafe-paths", "--directory",
                             tmp, m["patchfile"]], capture_output=True,
                            text=True, cwd=tmp)
         if r.returncode != 0:
